@@ -7,6 +7,7 @@ var Registry = map[string]func(*core.Run){
 	"C02": C02,
 	"C03": C03,
 	"C06": C06,
+	"C14": C14,
 	"C04": C04,
 	"C05": C05,
 }
